@@ -66,13 +66,13 @@ std::istream& deserialize(std::istream& _istr, std::string& _rhs)
 
 std::istream& operator>>(std::istream& _istr, std::vector< bool >& _rhs)
 {
-    size_t size;
+    size_t size = 0;
     _istr >> size;
     _rhs.resize(size);
     // stop at the first failed extraction: the declared size is untrusted input
     for (size_t i=0; i<size && _istr; i++)
     {
-        bool b;
+        bool b = false;
         _istr >> b;
         _rhs[i] = b;
     }
